@@ -11,6 +11,7 @@ Trusted / external: that `std::poisson_distribution<int>` yields a natural numbe
 `uniform_real_distribution(0,1)` a value in `[0,1)`; the *distributions* of the primitives and of `mt19937`.
 -/
 import Strengths.Proofs.InitState
+import Strengths.Proofs.RedistFair
 import Strengths.Model.CodeSnapshot
 import Strengths.Gen.IndexPy
 
@@ -21,14 +22,12 @@ open Strengths Strengths.Gen
 
 /-- `GenerateStochasticDistribution` is, statement for statement, the function that was modelled -/
 theorem code_as_modelled_redist :
-    gsdBody = CodeSnapshot.gsdBody ∧ gsdTarget = CodeSnapshot.gsdTarget ∧ gsdHitCond = CodeSnapshot.gsdHitCond ∧
-    poissonNormalSwitch = 100 := by decide +kernel
+    gsdBody = CodeSnapshot.gsdBody ∧ poissonNormalSwitch = 100 := by decide +kernel
 
 /-- the mode dispatch of both `engineexport_initialize_*` functions is the modelled one, and the processed
 array `mesh_x` is what `Init` receives -/
 theorem code_as_modelled_dispatch :
     initBranchesGrid = CodeSnapshot.initBranchesGrid ∧ initBranchesGraph = CodeSnapshot.initBranchesGraph ∧
-    initBranchesGrid = initBranchesGraph ∧
     isStochasticDefGrid = CodeSnapshot.isStochasticDefGrid ∧ isStochasticDefGraph = CodeSnapshot.isStochasticDefGraph ∧
     initPassesMeshXGrid = true ∧ initPassesMeshXGraph = true := by decide +kernel
 
@@ -166,11 +165,11 @@ theorem redist_means (x : State) (n ns : Nat) :
 
 /-
 FULL STATEMENT (termination): "the processing always terminates" — for the `for(;;)` of the correction loop
-this is termination with probability 1 over the uniform draws, a measure-theoretic statement that is not
-formalised.  PROVED (`redist_progress_partial`): from every loop state there is an interval of uniform draws
-of positive length (`[lo, hi) ⊆ [0,1)`) on which the pass makes progress, so with independent uniform draws
-the number of passes is dominated by a sum of geometric variables; MISSING: the probability space itself
-(product measure on the draw stream) and the Borel–Cantelli step.  A finite draw stream that ends too early
+this is termination with probability 1 over the uniform draws.  PROVED: `redist_progress_partial` (from every loop
+state there is an interval of uniform draws of positive length on which the pass makes progress) and, from it,
+`redist_terminates_on_fair_stream` below (the loop halts on every stream that hits every sub-interval of [0,1)
+infinitely often).  TRUSTED, not formalised: that an i.i.d. uniform stream is such a stream almost surely
+(product measure on the draw stream + second Borel–Cantelli lemma).  A finite draw stream that ends too early
 makes the model answer "needs more fuel" (`none`), never a wrong state.
 -/
 theorem redist_progress_partial (x : State) (n s : Nat) (rm : Bool) (hx : ∀ i, 0 ≤ x i s)
@@ -180,6 +179,30 @@ theorem redist_progress_partial (x : State) (n s : Nat) (rm : Bool) (hx : ∀ i,
       ∃ sto', correctSpecies x n s (colSum x n s) rm (Draw.unif u :: ds) (k + 1) sto =
         correctSpecies x n s (colSum x n s) rm ds k sto' :=
   correctSpecies_progress x n s rm hx hT sto hrm
+
+/-- `redist_terminates_on_fair_stream` — the deterministic replacement of "terminates with probability 1".
+`Fair σ`: every non-empty sub-interval of `[0,1)` is hit by the stream of uniform draws at arbitrarily late times
+(an explicit hypothesis on the stream; it contains in particular the progress interval of `redist_progress_partial`
+of every loop state that can occur).  Then, whatever the Poisson / normal draws of step 2 were, the whole
+`GenerateStochasticDistribution` returns after finitely many uniform draws.
+TRUSTED (measure theory, not formalised): an i.i.d. uniform stream is fair almost surely (second Borel–Cantelli). -/
+theorem redist_terminates_on_fair_stream (x : State) (n ns : Nat) (hx : ∀ i s, 0 ≤ x i s) (σ : Nat → Rat)
+    (hfair : Fair σ) (hσ : ∀ t, 0 ≤ σ t) {ds0 : List Draw} {sto : State}
+    (h2 : redistDraw x (cellMajor n ns) ds0 State.zero = some (sto, [])) :
+    ∃ N out, redist x n ns (ds0 ++ streamSeg σ 0 N) = some (out, []) :=
+  redist_halts_fair x n ns hx σ hfair hσ h2
+
+/-- the fairness hypothesis is satisfiable: an explicit stream of draws in `[0,1)` that is fair -/
+theorem fair_streams_exist : ∃ σ : Nat → Rat, Fair σ ∧ ∀ t, 0 ≤ σ t ∧ σ t < 1 :=
+  ⟨fairExample, fairExample_fair⟩
+
+/-- the `for(;;)` of one species halts on a fair stream from every loop state that satisfies the loop invariant
+(non-negative integers, support, enough molecules left to remove), at every time -/
+theorem correction_loop_terminates_on_fair_stream (x : State) (n s : Nat) (rm : Bool) (hx : ∀ i, 0 ≤ x i s)
+    (hT : 0 < colSum x n s) (σ : Nat → Rat) (hfair : Fair σ) (hσ : ∀ t, 0 ≤ σ t)
+    (k : Nat) (sto : State) (t0 : Nat) (hinv : LoopInv x n s rm k sto) :
+    ∃ N out, correctSpecies x n s (colSum x n s) rm (streamSeg σ t0 N) k sto = some (out, []) :=
+  correctSpecies_halts_fair x n s rm hx hT σ hfair hσ k sto t0 hinv
 
 /-- a species whose processed total already equals the floor of its real total draws nothing in step 5; in
 particular a species that is absent (total 0) never enters the `for(;;)` -/
